@@ -37,6 +37,34 @@ def run(ctx: RuleContext):
     ctx.reuse("C09.5", check_failed_check_binds_no_structure, ctx)
     ctx.sub(check_structure_before_leaves, ctx)
     ctx.sub(check_structure_is_leaftype_relative, ctx)
+    ctx.sub(check_every_name_is_substituted, ctx)
+
+
+def check_every_name_is_substituted(ctx):
+    """C09.8: 'S T' is S with every leaf replaced by T: each name of a composite is substituted into the structure composed so far with
+    `tree_map(lambda _: <the name's tree>, <composed>)` -- also when the structure composed so far has *no* leaves (`()`, `[]`, `{}`: the
+    result is that leafless structure again).  A short cut that *replaces* the accumulator on some condition of the accumulator itself
+    (`if not named_pytree: named_pytree = prev_pytree`: the start value `0` is falsy, but so is an empty container) composes something else."""
+    m = ctx.model
+    f = m.func("_pytree_type._MetaPyTree._check")
+    ctx.saw(f)
+    n = 0
+    for lp in [x for x in ast.walk(f.node) if isinstance(x, ast.For)]:
+        subs = [st for st in ast.walk(lp) if isinstance(st, ast.Assign) and len(st.targets) == 1 and isinstance(st.targets[0], ast.Name) and isinstance(st.value, ast.Call)
+                and norm(st.value.func).split(".")[-1] == "tree_map" and len(st.value.args) == 2 and norm(st.value.args[1]) == st.targets[0].id]
+        if not subs:
+            continue
+        acc = subs[0].targets[0].id
+        n += 1
+        others = [st for st in ast.walk(lp) if isinstance(st, (ast.Assign, ast.AugAssign)) and st not in subs and any(
+            isinstance(t, ast.Name) and t.id == acc for t in (st.targets if isinstance(st, ast.Assign) else [st.target]))]
+        for st in others:
+            ctx.bad("C09.8", f, st, f"`{short(st, 60)}`: inside the loop over the names of a composite the structure composed so far (`{acc}`) is replaced, not substituted into: when it "
+                    "has no leaves (S bound to `()`), 'S T' must still be that leafless structure, but the next name takes its place", construct=f"composite accumulator {acc} replaced in the loop")
+        if not others:
+            ctx.ok("C09.8", f.qualname, f"every name is substituted into `{acc}` by tree_map; nothing else re-binds it in the loop")
+    ctx.counters["composition_loops"] = n
+    ctx.floor("C09.8", "composition_loops", 1)
 
 
 def check_structure_is_leaftype_relative(ctx):
